@@ -209,7 +209,7 @@ func checkC13(r *Run) error {
 			"meaning": "for each swept world every recorded I/O call index x every applicable fault kind was executed once"},
 		"torn_prefix_sweeps": st.tornSweeps,
 		"operand_matrix": map[string]any{"programs": st.matrixInputs, "exhaustive_over": "every expression slot of every statement form, builtin, return position (also nested in if/for/switch inside functions) x 35 operand kinds (void/single/multi-value calls, app calls, slices, nil, literals, undefined names, parenthesised variants) x placement at top level / inside a function, both targets"},
-		"tiny_input_enumeration": map[string]any{"inputs": st.tinyInputs, "exhaustive_over": "every single byte, every vocabulary token, every ordered pair of vocabulary tokens with and without a separating blank (thorough: plus all triples over a 30-token vocabulary) as the whole main file"},
+		"tiny_input_enumeration": map[string]any{"inputs": st.tinyInputs, "exhaustive_over": "every single byte, every vocabulary token, every ordered pair of vocabulary tokens with and without a separating blank, every encoding mark x 12 short tails (thorough: plus all triples over a 30-token vocabulary) as the whole main file"},
 	}
 	extra := map[string]any{
 		"rounds":            rounds,
@@ -258,6 +258,24 @@ func c13Tiny(r *Run, st *c13Stats) error {
 		inputs = append(inputs, a)
 		for _, b := range gen.Vocab {
 			inputs = append(inputs, a+b, a+" "+b)
+		}
+	}
+	// every encoding mark in front of every kind of short tail (even and odd lengths, NUL-padded
+	// code units, a whole program in UTF-16 with and without a stray byte)
+	u16 := func(s string, le bool) string {
+		out := []byte{}
+		for _, c := range []byte(s) {
+			if le {
+				out = append(out, c, 0)
+			} else {
+				out = append(out, 0, c)
+			}
+		}
+		return string(out)
+	}
+	for _, mark := range []string{"\xef\xbb\xbf", "\xff\xfe", "\xfe\xff", "\xff\xfe\x00\x00", "\x00\x00\xfe\xff"} {
+		for _, tl := range []string{"", "x", "xy", "x\x00", "x\x00y", "x\x00y\x00", "\n", "print(1)\n", u16("print(1)\n", true), u16("print(1)\n", true) + "\n", u16("print(1)\n", false), u16("print(1)\n", false)[1:]} {
+			inputs = append(inputs, mark+tl)
 		}
 	}
 	nTiny := len(inputs)
